@@ -76,7 +76,12 @@ pub fn render_ix(ix: &Ix, name: &str, pre: &mut Vec<String>) -> String {
   match ix {
     Ix::Scalar(v, None) => format!("{}", v),
     Ix::Scalar(v, Some(k)) => { pre.push(format!("{}<{}> := {}", name, k.name(), v)); name.to_string() }
-    Ix::Vec { vals, col } => format!("[{}]", vals.iter().map(|v| v.to_string()).collect::<Vec<_>>().join(if *col { "; " } else { " " })),
+    Ix::Vec { vals, col } => {
+      let lit = format!("[{}]", vals.iter().map(|v| v.to_string()).collect::<Vec<_>>().join(if *col { "; " } else { " " }));
+      // a third of the index vectors (decided by their contents, so that a case stays a pure function of its data) are bound to a
+      // variable first: a subscript that is a variable reference takes its own dispatch arm
+      if vals.len() >= 2 && vals.iter().sum::<i64>() % 3 == 0 { pre.push(format!("{}v := {}", name, lit)); format!("{}v", name) } else { lit }
+    }
     Ix::Range { a, b, inclusive } => format!("{}{}{}", a, if *inclusive { "..=" } else { ".." }, b),
     Ix::All => ":".to_string(),
     Ix::Mask { flags, var } => {
